@@ -8,7 +8,8 @@ spec's `create` (the handle exists, with the creator's and the thread's referenc
 pointer is allocated), `createEnd`, `start`, `ret` and the two steps of the lazy native-key creation
 are invisible to it, `exit` is `current` followed by the spec's `exit`; `createFail` is the spec's `createFailed`; `joinFail` (the native join
 reports an error) answers like `join`: the code recorded so far; `tlsFail` (the native key cannot be made) stores nothing and reads the cell
-as it is; `currentFail` is `createFailed` as well.  `Obs` is the API-visible
+as it is; `currentFail` is `createFailed` as well; `storeFail` (the native store reports an error) leaves the cell as it is — a
+`replace` has notified the old value by then, exactly as `replaceLocal` does.  `Obs` is the API-visible
 answer of an event — the `r`, `L`, `F`, `D` columns of the differential run: returned ids / join code /
 `get_local` value, live handles, handles released by the event, notifier calls of the event (as a
 sorted list: the order of destructor calls at thread end is unspecified).  `obsM` reads the same
@@ -47,6 +48,9 @@ def specStep (sp : S) : Ev → S × Obs
   | .joinFail _ h => (sp, { ret := [join sp h], live := sp.live })
   | .tlsFail t k g => (sp, { ret := if g then [sp.cell t k] else [], live := sp.live })
   | .currentFail _ => let r := createFailed sp; (r.1, { live := r.1.live, freed := [r.2] })
+  | .startUnstored t => let r := unstored sp t; (r, { live := r.live })
+  | .storeFail t k r => (sp, { live := sp.live, dtor := if r then sortD (replaceLocal sp t k 0).2.dtor else [] })
+  | .retUnstored _ h => let r := drop sp h; (r.1, { live := r.1.live, freed := r.2 })
 
 /-- live handles of a machine state -/
 def liveOf (s : State) : List Nat := (List.range s.nH).filter fun h => !(s.hdl h).freed
